@@ -5,6 +5,10 @@ import CppUModel.Spec.Runner
 /-!
 Driver for C01.
 
+A case is a SEQUENCE of runner invocations in one process (`run`, `rethrow <0|1>`, `run`, …): the model carries the
+process-wide static rethrow flag from one invocation to the next (`Prog.process`, written by the regenerated
+`initializeTestRun`), the oracle judges every invocation by the options of its own command line.
+
 `step`: builds the test program from the operation lines (environment inputs — build variant,
 file/lines of the plain macro sites — are read from the implementation's observation lines of
 `cfg`) and, at `run`, prints what the runner model does.
@@ -33,6 +37,7 @@ structure Prog where
   env         : Option Bool := none   -- `env` op: what setWorkingEnvironment stored (none = detect, some true = visualStudio)
   composite   : Bool := false         -- `composite` op: -ojunit with -v: CompositeTestOutput
   realio      : Bool := false         -- `realio` op: real stdout (a pipe), bytes observed
+  process     : Process := {}         -- what the earlier runners of this case left in the process (model replay only)
   groupFilters : List Filter := []
   nameFilters  : List Filter := []
   plugins     : List Plugin := []              -- in op order; the chain is the reverse
@@ -197,6 +202,7 @@ def applyOp (p : Prog) (op : List String) (obs : List (List String)) : Prog :=
   | ["env", e] => { p with env := if e = "vs" then some true else if e = "eclipse" then some false else none }
   | ["composite"] => { p with composite := true }
   | ["realio"] => { p with realio := true }
+  | ["rethrow", rt] => { p with rethrow := rt == "1" }     -- the next runner of the process: without (1) / with (0) -e
   | "s" :: label :: ph :: rest =>
     { p with tests := p.tests.map fun (lb, t, lines) =>
         if lb = label then (lb, t, lines ++ [(ph, rest)]) else (lb, t, lines) }
@@ -248,8 +254,18 @@ def consoleStrings (p : Prog) (evs : List Ev) : List String :=
 
 def hexOrDash (s : String) : String := if s.isEmpty then "-" else hexOfStr s
 
+/-- the invocation the `run` op makes: the command line of the program as it is now -/
+def Prog.invocation (p : Prog) (clock : List Nat) : Invocation :=
+  ⟨p.cfg clock, p.chain, p.testList, repeatCountOf p.rep⟩
+
+/-- the process when the tests run: after `initializeTestRun` AS REGENERATED from the source -/
+def Prog.initialized (p : Prog) : Process := initializeTestRunGen p.rethrow p.process
+
+/-- the process after the run (the real-stdout sub-mode runs in a process of its own: nothing is left behind) -/
+def Prog.afterRun (p : Prog) : Prog := if p.realio then p else { p with process := p.initialized }
+
 def modelRun (p : Prog) (clock : List Nat) : List String :=
-  match runAllTests (p.cfg clock) p.chain p.testList (repeatCountOf p.rep) 0 with
+  match runAllTests (effectiveCfg p.initialized (p.invocation clock)) p.chain p.testList (repeatCountOf p.rep) 0 with
   | .error (.fault f) => ["model-fault " ++ faultText f]
   | .error (.propagated q) =>
     q.evs.flatMap (renderEv p.vs p.color) ++ [s!"propagated {kindName q.kind}", s!"final {q.depth} {curName q.current}"]
@@ -264,7 +280,7 @@ def modelRun (p : Prog) (clock : List Nat) : List String :=
 
 def modelStep (p : Prog) (op : List String) (obs : List (List String)) : Prog × List String :=
   match op with
-  | ["run"] => (p, modelRun p (clockOfObs obs))
+  | ["run"] => (p.afterRun, modelRun p (clockOfObs obs))
   | ["cfg", _, _, _, _, _, _] =>
     -- the two environment lines are inputs: echo them
     (applyOp p op obs, obs.filterMap fun l => match l with
@@ -488,7 +504,8 @@ def judgeRun (p : Prog) (obs : List (List String)) : Option String := Id.run do
     if let some k := sel.findIdx? (fun t => willRun cfg t && (firstThrow cfg t).isSome) then
       return judgePropagation p.vs cfg chain sel k items
   if items.any (fun | .propagated _ => true | _ => false) then
-    return some "an exception left the runner although no test lets one out in rethrow mode"
+    return some (if cfg.rethrow then "an exception left the runner although no test lets one out in rethrow mode"
+      else "an exception left the runner although it was started with -e (escaping exceptions are not rethrown: the exception must be recorded once, teardown must run, the run must go on to its summary and return value)")
   let (segs, tail) := splitEnded items [] []
   if segs.length != n * m then
     return some s!"{segs.length} tests were run or skipped as ignored; {n} repetition(s) of {m} selected tests demand {n * m}"
